@@ -105,15 +105,15 @@ class Ctx:
     def __init__(self, rec, case, label, dt):
         self.rec, self.case, self.label, self.dt = rec, case, label, dt
 
-    def call(self, entry, sub, torch_call, method_call=None, dense_call=None, scale=1.0, owned=True, cmp=None, dense_when=True, must_raise=None):
+    def call(self, entry, sub, torch_call, method_call=None, dense_call=None, scale=1.0, owned=True, cmp=None, dense_when=True, must_raise=None, tag=None):
         """entry: table entry name; sub: operand kind / variant.
         torch_call(): the literal torch-level call; method_call(): the method the table names; dense_call(): torch.f on dense.
         owned: C15 owns the value contract of this entry (arithmetic / reflected / shape functions): internal-error exception
         types are failures even when the method raises the same.  cmp(result, dense_result) -> (ok, detail) overrides the
         default comparison with dense.  must_raise: the call is outside what the library declares supported: it must raise
         one of these types and never return."""
-        group = f"{entry}[{sub}]/{self.case.name}"
-        lab = self.label
+        group = f"{entry}({sub})/{self.case.name}"  # no [] in names: obligations are matched with fnmatch
+        lab = self.label if tag is None else f"{self.label}|{tag}"
         ok_t, r_t = _run(torch_call)
         if must_raise is not None:
             if ok_t:
@@ -236,7 +236,9 @@ def _first_arg(cx, f, name, op, d, mk, g):
             if not (H.root_after_mul(o2, 2.0 * sgn) and not case.psd):
                 cx.call(e, f"op:{nm},alpha", lambda: f(op, o2, alpha=2.0), lambda: meth(o2, alpha=2.0), lambda: f(d, od2, alpha=2.0))
         for pk, v in (("py_zero", 0), ("py_float", 2.0)):
-            cx.call(e, pk, lambda: f(op, v), lambda: meth(v), lambda: f(d, v))
+            # python scalar as the other operand of +/-: the property does not say which error a refusal must be: only "same as the
+            # method" and, when something is returned, "equal to torch on dense" are required
+            cx.call(e, pk, lambda: f(op, v), lambda: meth(v), lambda: f(d, v), owned=False)
         return True
     if f is torch.mul:
         for tk, X in (("T", T), ("T_bcast", Tb), ("t0", torch.tensor(-1.5, dtype=dt)), ("py_float", 2.5), ("py_int", -2), ("tb", zoo.rn(g, *batch, 1, 1, dtype=dt) if batch else zoo.rn(g, 1, 1, dtype=dt))):
@@ -306,18 +308,19 @@ def _first_arg(cx, f, name, op, d, mk, g):
         cx.call(e, "op", lambda: f(mk()), lambda: getattr(mk(), name)(), lambda: f(d), scale=1e2, owned=False, dense_when=sq and case.psd)
         cx.call(e, "upper=True", lambda: f(mk(), upper=True), lambda: getattr(mk(), name)(upper=True), lambda: f(d, upper=True), scale=1e2, owned=False, dense_when=sq and case.psd)
         return True
+    lsc = 1e3 if dt == torch.float64 else 50.0  # reconstruction / spectrum tolerance: 1e-6 (float64), 1e-2 (float32) relative
     if f in (torch.linalg.eigh, torch.linalg.eigvalsh):
         def cmp(r, rd):
             evals = r if f is torch.linalg.eigvalsh else r[0]
             ref = rd if f is torch.linalg.eigvalsh else rd[0]
             if not torch.is_tensor(evals) or evals.shape != ref.shape:
                 return False, f"eigenvalues shape {getattr(evals, 'shape', None)} vs {ref.shape}"
-            if not zoo.close(evals.sort(-1).values, ref, scale=1e3):
+            if not zoo.close(evals.sort(-1).values, ref, scale=lsc):
                 return False, "eigenvalues differ"
             if f is torch.linalg.eigh:
                 V = H.dn(r[1])
                 rec_ = V @ torch.diag_embed(evals) @ V.mT
-                if not zoo.close(rec_, d, scale=1e3):
+                if not zoo.close(rec_, d, scale=lsc):
                     return False, "V diag(e) V^T != A"
             return True, ""
 
@@ -326,9 +329,9 @@ def _first_arg(cx, f, name, op, d, mk, g):
     if f is torch.linalg.svd:
         def cmp(r, rd):
             U, S, Vh = H.dn(r[0]), r[1], H.dn(r[2])
-            if S.shape != rd[1].shape or not zoo.close(S.sort(-1, descending=True).values, rd[1], scale=1e3):
+            if S.shape != rd[1].shape or not zoo.close(S.sort(-1, descending=True).values, rd[1], scale=lsc):
                 return False, "singular values differ"
-            if not zoo.close(U @ torch.diag_embed(S) @ Vh, d, scale=1e3):
+            if not zoo.close(U @ torch.diag_embed(S) @ Vh, d, scale=lsc):
                 return False, "U diag(S) Vh != A"
             return True, ""
 
@@ -340,7 +343,7 @@ def _first_arg(cx, f, name, op, d, mk, g):
         tri = sq and bool(((d.triu(1) if not up else d.tril(-1)) == 0).all())
         cx.call(e, "upper=op.upper", lambda: f(op, B, upper=up), lambda: meth(B, upper=up), lambda: f(d, B, upper=up), scale=1e2, owned=False, dense_when=tri)
         if sq:
-            Bl = zoo.rn(g, *batch, 2, n, dtype=dt)
+            Bl = zoo.rn(g, *batch, n, n, dtype=dt)  # square: a handler that ignores left=False still returns something of the right shape
             cx.call(e, "left=False", lambda: f(op, Bl, upper=up, left=False), lambda: meth(Bl, upper=up, left=False), lambda: f(d, Bl, upper=up, left=False), scale=1e2, owned=False, dense_when=tri)
         return True
     if f is torch.inverse:
@@ -349,22 +352,22 @@ def _first_arg(cx, f, name, op, d, mk, g):
     if f is torch.sum:
         cx.call(e, "all", lambda: f(op), lambda: meth(), lambda: f(d), scale=max(1, m * n), dense_when=sq)  # sum() of non-square operators: C02 finding
         for dim in range(-nd, nd):
-            cx.call(e, f"dim={'batch' if dim % nd < nb else 'matrix'}", lambda: f(op, dim), lambda: meth(dim), lambda: f(d, dim), scale=max(1, d.shape[dim]))
+            cx.call(e, f"dim={'batch' if dim % nd < nb else 'matrix'}", lambda: f(op, dim), lambda: meth(dim), lambda: f(d, dim), scale=max(1, d.shape[dim]), tag=f"dim={dim}")
         cx.call(e, "dim=kw", lambda: f(op, dim=-1), lambda: meth(dim=-1), lambda: f(d, dim=-1), scale=n)
         return True
     if f is torch.prod:
         if case.psd and sq:
             for dim in range(nb):
-                cx.call(e, "dim=batch", lambda: f(mk(), dim), lambda: getattr(mk(), name)(dim), lambda: f(d, dim), scale=100.0)
-                cx.call(e, "dim=batch,neg", lambda: f(mk(), dim - nd), lambda: getattr(mk(), name)(dim - nd), lambda: f(d, dim - nd), scale=100.0)
+                cx.call(e, "dim=batch", lambda: f(mk(), dim), lambda: getattr(mk(), name)(dim), lambda: f(d, dim), scale=100.0, tag=f"dim={dim}|dimsize={d.shape[dim]}")
+                cx.call(e, "dim=batch,neg", lambda: f(mk(), dim - nd), lambda: getattr(mk(), name)(dim - nd), lambda: f(d, dim - nd), scale=100.0, tag=f"dim={dim - nd}|dimsize={d.shape[dim]}")
         return True
     if f is torch.squeeze:
         for dim in range(-nd, nd):
-            cx.call(e, f"dim={'batch' if dim % nd < nb else 'matrix'}", lambda: f(op, dim), lambda: meth(dim), lambda: f(d, dim))
+            cx.call(e, f"dim={'batch' if dim % nd < nb else 'matrix'}", lambda: f(op, dim), lambda: meth(dim), lambda: f(d, dim), tag=f"dim={dim}")
         return True
     if f is torch.unsqueeze:
         for dim in list(range(nb + 1)) + [-3 - i for i in range(nb + 1)]:
-            cx.call(e, "dim=batch", lambda: f(op, dim), lambda: meth(dim), lambda: f(d, dim))
+            cx.call(e, "dim=batch", lambda: f(op, dim), lambda: meth(dim), lambda: f(d, dim), tag=f"dim={dim}")
         return True
     if f is torch.transpose:
         cx.call(e, "matrix", lambda: f(op, -1, -2), lambda: meth(-1, -2), lambda: f(d, -1, -2))
@@ -467,11 +470,11 @@ def _operators_and_dunders(cx, op, d, g):
         cx.call("binop:op*c", sk, lambda: op * c, None, lambda: d * c)
         cx.call("binop:op/c", sk, lambda: op / c, None, lambda: d / c)
     for sk, c in (("py_zero", 0), ("py_float", 2.5)):
-        # python scalar as the other operand of +/-: the dense value, or an explicit refusal (never an internal error)
-        cx.call("binop:op+c", sk, lambda: op + c, None, lambda: d + c)
-        cx.call("binop:c+op", sk, lambda: c + op, None, lambda: c + d)
-        cx.call("binop:op-c", sk, lambda: op - c, None, lambda: d - c)
-        cx.call("binop:c-op", sk, lambda: c - op, None, lambda: c - d)
+        # python scalar as the other operand of +/-: the dense value when something is returned; any refusal is accepted
+        cx.call("binop:op+c", sk, lambda: op + c, None, lambda: d + c, owned=False)
+        cx.call("binop:c+op", sk, lambda: c + op, None, lambda: c + d, owned=False)
+        cx.call("binop:op-c", sk, lambda: op - c, None, lambda: d - c, owned=False)
+        cx.call("binop:c-op", sk, lambda: c - op, None, lambda: c - d, owned=False)
     # reflected dunder methods called directly
     cx.call("dunder:__radd__", "T", lambda: op.__radd__(T), None, lambda: T + d)
     cx.call("dunder:__rsub__", "T", lambda: op.__rsub__(T), None, lambda: T - d)
@@ -635,8 +638,8 @@ RTC_META = {
         "for solve / logdet / cholesky / eigh / eigvalsh / svd / inverse / solve_triangular (owned by C04-C06) only dispatch equivalence with the method is required on "
         "every class; equality with torch on dense is checked on the well-conditioned positive definite (resp. triangular) cases only, up to the non-uniqueness of the "
         "factorisation (sorted spectra, reconstruction)",
-        "a python scalar as the other operand of +/-: the dense value or an explicit refusal (TypeError/NotImplementedError/RuntimeError/ValueError) is accepted, an "
-        "internal AttributeError is not",
+        "a python scalar as the other operand of +/-: a returned value must equal torch on dense; any exception (identical for the method) is accepted "
+        "(the property does not state how a refusal looks)",
         "torch.diagonal with the default dims is compared on unbatched operators only (torch's default dims are 0,1, the library's -2,-1)",
     ],
     "families": "quick: 62 cases x (float64: batch shapes (), (2,), (1,3), (1,) x sizes 1,3,4; float32 sub-grid) x every entry of _HANDLED_FUNCTIONS (27) and "
